@@ -182,6 +182,11 @@ impl<A: AvxNum, T: FftNum> RadersAvx2<A, T> {
         let mut inner_fft_scratch = vec![Zero::zero(); required_inner_scratch];
         inner_fft.process_with_scratch(&mut inner_fft_input, &mut inner_fft_scratch);
 
+        // The DC bin of this spectrum is the (scaled) sum of every len-th root of unity except 1, which is exactly -1.
+        // The FFT above only approximates it, with an error that grows with len. Every output depends on this bin through
+        // the mean of the input, so store the exact value.
+        inner_fft_input[0] = Complex::new(-inner_fft_scale, T::zero());
+
         // When computing the FFT, we'll want this array to be pre-conjugated, so conjugate it. at the same time, convert it to vectors for convenient use later.
         let conjugation_mask =
             AvxVector256::broadcast_complex_elements(Complex::new(A::zero(), -A::zero()));
